@@ -348,10 +348,8 @@ class TFLiteSemantic:
         tensors = [tens for tens in op.get_ifm_ifm2_weights_ofm() if tens]
         for tens in tensors:
             quant = tens.quantization
-            # zero-length scale or zero point vectors carry no quantization parameters either
-            if quant is None or any(
-                value is not None and np.size(value) == 0 for value in (quant.scale_f32, quant.zero_point)
-            ):
+            # a missing or zero-length scale or zero point vector means that the quantization parameters are incomplete
+            if quant is None or any(value is None or np.size(value) == 0 for value in (quant.scale_f32, quant.zero_point)):
                 valid = False
                 extra.append(tens.name)
         extra = ", ".join(extra)
